@@ -5,7 +5,8 @@
    with bounded buffers, faults at every point, tear-down).  Only statements here; proofs
    are in Proofs/Lts{Inv,Safe,Term,C04}.v. *)
 From Coq Require Import List Arith Bool PeanoNat.
-From FS Require Import Model.Lts Model.LtsExplore Proofs.LtsInv Proofs.LtsSafe Proofs.LtsTerm Proofs.LtsC04.
+From FS Require Import Model.Lts Model.LtsExplore Proofs.LtsInv Proofs.LtsSafe Proofs.LtsTerm Proofs.LtsC04
+  Proofs.LtsClean1 Proofs.LtsClean3 Proofs.LtsClean5.
 Import ListNotations.
 
 (* In every reachable state (every interleaving, every fault sequence, every parameter):
@@ -73,7 +74,38 @@ Theorem torn_down_terminates_old_queue_refuted :
     (forall l, step p st l = None).
 Proof. exact old_queue_deadlock_proof. Qed.
 
+(* fault_free_completes, safety half: a run without fault, cancellation, stream failure or
+   tear-down never fails — when it is complete (both calls returned, no goroutine live) both
+   calls have returned nil; for every interleaving, W, P, C, C2 and stream capacities >= 0
+   (wf_params: an entry whose content is requested is a regular file).
+   NOT PROVED (liveness half, exact statement also in props/C04.json):
+     forall p ls st, wf_params p -> p_W p >= 1 -> fault_free ls -> run p (init p) ls = Some st ->
+       final st = false -> exists l, fault_free_label l = true /\ step p st l <> None
+   (no capacity hypothesis is expected to be needed: the receiver's chain receive loop -> fill ->
+   diff never waits for the stream; exhaustive searches with every capacity 0 and 1 below). *)
+Theorem fault_free_completes_partial : forall p ls st, wf_params p -> fault_free ls ->
+  run p (init p) ls = Some st -> final st = true ->
+  send_ret st = Some true /\ recv_ret st = Some true.
+Proof. exact fault_free_success_proof. Qed.
+
+(* Without tear-down the progress half is FALSE once a fault has happened: one NotifyHashed
+   error on the receiver, more outstanding requests than P + W + cap(r->s), and every goroutine
+   of both calls is blocked although neither call has returned and the stream is intact.  (This
+   is why the property is worded "once the stream is torn down"; see torn_down_terminates.) *)
+Theorem progress_without_teardown_refuted :
+  exists p ls st,
+    p_W p >= 1 /\ p_old_queue p = false /\ run p (init p) ls = Some st /\
+    filter is_env ls = [LDiffCbErr] /\
+    torn_down st = false /\ s_broken st = false /\ r_broken st = false /\
+    send_ret st = None /\ recv_ret st = None /\ final st = false /\
+    length (reqs st) + length (filter (fun w => match wr_pc w with WR_Send => true | _ => false end) (wrs st))
+      > p_P p + p_W p + p_capRS p /\
+    (forall l, is_env l = false -> step p st l = None).
+Proof. exact no_teardown_deadlock_proof. Qed.
+
 Print Assumptions no_false_success.
+Print Assumptions fault_free_completes_partial.
+Print Assumptions progress_without_teardown_refuted.
 Print Assumptions torn_down_terminates.
 Print Assumptions fault_reaches_peer.
 Print Assumptions torn_down_terminates_old_queue_refuted.
@@ -100,7 +132,7 @@ Proof. vm_compute. reflexivity. Qed.
 (* a read error after the first chunk of file 1 (no ERR is sent: both ends block), tear-down on
    quiescence: the run ends with both calls returned with an error and no goroutine live *)
 Example faulty_run_with_teardown_terminates :
-  let st := sched 1000 {| sc_fault := FReadErr 1 1; sc_gated := false |} c04_params (init c04_params) in
+  let st := sched 1000 (mk_scenario (FReadErr 1 1) false) c04_params (init c04_params) in
   c04_obs st = (true, Some false, Some false, [], [1]) /\ torn_down st = true.
 Proof. vm_compute. split; reflexivity. Qed.
 
@@ -108,8 +140,8 @@ Proof. vm_compute. split; reflexivity. Qed.
    => both fail; never a hang (exhaustive visited-set search, complete within the fuel) *)
 Example all_interleavings_small :
   let r0 := explore_scenario 5000 no_fault c04_small in
-  let r1 := explore_scenario 5000 {| sc_fault := FReadErr 1 0; sc_gated := false |} c04_small in
-  let r2 := explore_scenario 5000 {| sc_fault := FWalkErr 1; sc_gated := false |} c04_small in
+  let r1 := explore_scenario 5000 (mk_scenario (FReadErr 1 0) false) c04_small in
+  let r2 := explore_scenario 5000 (mk_scenario (FWalkErr 1) false) c04_small in
   (res_outcomes r0, res_complete r0, res_hang r0) = ([4], true, None) /\
   (res_outcomes r1, res_complete r1, res_hang r1) = ([8], true, None) /\
   (res_outcomes r2, res_complete r2, res_hang r2) = ([8], true, None).
@@ -118,8 +150,8 @@ Proof. vm_compute. repeat split; reflexivity. Qed.
 (* the search finds the 6c5966d hang with the old queue() and not with the new one
    (gated stream: 1 worker + pipeline capacity 0 + 2 requests) *)
 Example search_finds_old_queue_hang :
-  res_outcomes (explore_scenario 5000 {| sc_fault := FNone; sc_gated := true |} oldq_params) = [11] /\
-  let r := explore_scenario 5000 {| sc_fault := FNone; sc_gated := true |}
+  res_outcomes (explore_scenario 5000 (mk_scenario (FNone) true) oldq_params) = [11] /\
+  let r := explore_scenario 5000 (mk_scenario (FNone) true)
              {| p_W := 1; p_P := 0; p_C := 1; p_C2 := 1; p_capSR := 1; p_capRS := 2;
                 p_entries := p_entries oldq_params; p_old_queue := false |} in
   (res_outcomes r, res_complete r, res_hang r) = ([8], true, None).
@@ -128,6 +160,19 @@ Proof. vm_compute. split; reflexivity. Qed.
 (* known finding open-error-empty-file-success, as the model sees it: Open of file 1 fails,
    both calls return nil, file 1 is completed with none of its 2 chunks written *)
 Example open_error_both_succeed_empty_file :
-  let st := sched 1000 {| sc_fault := FOpenErr 1; sc_gated := false |} c04_params (init c04_params) in
+  let st := sched 1000 (mk_scenario (FOpenErr 1) false) c04_params (init c04_params) in
   c04_obs st = (true, Some true, Some true, [1; 3], [3]) /\ g_open_err st = true.
+Proof. vm_compute. split; reflexivity. Qed.
+
+(* fault-free runs with EVERY capacity 0 (rendezvous everywhere) and with every capacity 1:
+   all interleavings end with both calls nil, none hangs (supports the unproved liveness half) *)
+Example fault_free_no_deadlock_small :
+  let p0 := {| p_W := 1; p_P := 0; p_C := 0; p_C2 := 0; p_capSR := 0; p_capRS := 0;
+               p_entries := [c04_dir; c04_file 1]; p_old_queue := false |} in
+  let p1 := {| p_W := 1; p_P := 1; p_C := 1; p_C2 := 1; p_capSR := 1; p_capRS := 1;
+               p_entries := [c04_file 1; c04_dir]; p_old_queue := false |} in
+  let r0 := explore_scenario 20000 no_fault p0 in
+  let r1 := explore_scenario 20000 no_fault p1 in
+  (res_outcomes r0, res_complete r0, res_hang r0, res_quiet r0) = ([4], true, None, None) /\
+  (res_outcomes r1, res_complete r1, res_hang r1, res_quiet r1) = ([4], true, None, None).
 Proof. vm_compute. split; reflexivity. Qed.
